@@ -20,6 +20,7 @@ def configs(tier):
     if tier == 'quick':
         add(spec('localp', 'localp', 2, 1, 2, order=1), 0, 0); add(spec('localp', 'semi-localp', 2, 2, 2, order=2), 1, 0); add(spec('localp', 'localp-zero', 2, 1, 2, order=3), 4, 0)
         add(spec('localp', 'localp-boundary', 2, 1, 2, order=1), 2, 0); add(spec('localp', 'localp', 2, 1, 2, order=2), 3, 0); add(spec('localp', 'localp', 2, 1, 3, order=0), 0, 0)
+        add(spec('localp', 'semi-localp', 3, 1, 3, order=2), 7, 0); add(spec('localp', 'localp-boundary', 3, 1, 3, order=1), 7, 0); add(spec('localp', 'localp', 3, 1, 2, order=0), 7, 0)   # regular-parent-closed, step-parent-open subsets in 3-D
         add(spec('global', 'clenshaw-curtis', 2, 1, 2), 0, 0); add(spec('global', 'leja', 2, 2, 2), 1, 0); add(spec('global', 'gauss-legendre', 2, 1, 2), 0, 0); add(spec('global', 'clenshaw-curtis', 2, 1, 2, transform=1), 3, 0)
         add(spec('sequence', 'rleja', 2, 1, 3), 0, 0); add(spec('sequence', 'leja', 2, 2, 2), 2, 0); add(spec('sequence', 'min-delta', 2, 1, 2), 3, 0)
         add(spec('fourier', 'fourier', 2, 1, 1), 0, 0); add(spec('fourier', 'fourier', 1, 1, 2), 4, 0)
@@ -33,6 +34,7 @@ def configs(tier):
                 add(spec('localp', rule, 3, 2, 2, order=order), 0, 0)
                 add(spec('localp', rule, 2, 1, 2, order=order), 0, 1, max_paths=40); add(spec('localp', rule, 1, 1, 3, order=order), 4, 1, max_paths=40)
             add(spec('localp', rule, 2, 1, 3, order=1, transform=1, limits=1), 1, 0)
+            for order in (0, 1, 2, 3): add(spec('localp', rule, 3, 2, 3 if order else 2, order=order), 7, 0); add(spec('localp', rule, 4, 1, 3 if order else 2, order=order), 7, 0)
         for rule in NESTED_GLOBAL[:8] + ['gauss-legendre', 'chebyshev', 'gauss-hermite-odd']:
             for h in (0, 1, 3) if rule in NESTED_GLOBAL else (0,):
                 add(spec('global', rule, 2, 1, 2), h, 0)
@@ -50,5 +52,7 @@ def configs(tier):
 
 def run(tier, seed, only=None):
     cs = filt(configs(tier), only)
-    META['bounds'] = {'dims': '1..3', 'depth': '1..3', 'histories': 'fresh, pending refinement, merged refinement + coefficient overwrite, partial construction, coefficient overwrite', 'x': 'concrete batch (nodes, interior, corner, support edges) and one symbolic point with <= 40 cells'}
-    return runner.run_property('C04', cs, tier, seed, META)
+    META['bounds'] = {'dims': '1..3', 'depth': '1..3', 'histories': 'fresh, pending refinement, merged refinement + coefficient overwrite, partial construction, coefficient overwrite, batch-loaded subset closed under regular parents but missing a step-parent (3-D/4-D)', 'x': 'concrete batch (nodes, interior, corner, support edges) and one symbolic point with <= 40 cells'}
+    ks = [] if only else kconfigs_for(tier, (5,))
+    META.setdefault('functions_encoded', []).append('RuleLocal::{getParent, getStepParent, getKid, getLevel, getNode, getSupport, getNumPoints, evalRaw, evalSupport} via ir2c + CBMC: support radius / evalSupport vs evalRaw for all 1-D points at dyadic probes (engine K, CBMC)')
+    return runner.run_property('C04', cs, tier, seed, META, ks)
